@@ -215,6 +215,16 @@ std::string strip_templates(std::string f) {
 
 // derive (key, msg) from a sanitizer report / crash
 void classify_crash(const std::string& err, int wstatus, std::string& key, std::string& msg) {
+  size_t as = err.find("Assertion `");
+  if (as == std::string::npos) as = err.find("Assertion '");
+  if (as != std::string::npos) {
+    size_t b = err.rfind('\n', as); b = b == std::string::npos ? 0 : b + 1;
+    size_t e = err.find('\n', as);
+    msg = err.substr(b, e - b);
+    size_t q = as + 10;
+    key = "assert:" + err.substr(q + 1, err.find_first_of("'`", q + 1) - q - 1);
+    return;
+  }
   size_t a = err.find("ERROR: AddressSanitizer: ");
   const char* san = "asan";
   if (a == std::string::npos) { a = err.find("WARNING: ThreadSanitizer: "); san = "tsan"; }
@@ -241,18 +251,6 @@ void classify_crash(const std::string& err, int wstatus, std::string& key, std::
     key = std::string(san) + ":" + kind + (func.empty() ? "" : ":" + func);
     size_t eol = err.find('\n', a);
     msg = err.substr(a, eol - a);
-    return;
-  }
-  size_t as = err.find("Assertion");
-  if (as == std::string::npos) as = err.find("assertion");
-  if (as != std::string::npos) {
-    size_t b = err.rfind('\n', as); b = b == std::string::npos ? 0 : b + 1;
-    size_t e = err.find('\n', as);
-    msg = err.substr(b, e - b);
-    // key: the asserted expression
-    size_t q = msg.find('`');
-    if (q == std::string::npos) q = msg.find('\'');
-    key = "assert:" + (q == std::string::npos ? msg.substr(0, 60) : msg.substr(q + 1, msg.find_first_of("'`", q + 1) - q - 1));
     return;
   }
   if (WIFSIGNALED(wstatus)) { key = "crash:signal" + std::to_string(WTERMSIG(wstatus)); msg = "worker killed by signal " + std::to_string(WTERMSIG(wstatus)); }
